@@ -14,7 +14,7 @@ use std::collections::{BTreeMap, BTreeSet};
 pub const META: PropertyMeta = PropertyMeta {
     id: "C04",
     level: "exploration",
-    rule: "proptest-generated cases: a pre-history (0..4 edits) on device 0 synced to an in-process server storage through the wire-encoding direct client, 2..3 devices cloned from it with per-device virtual clock skew in {0, +-1 ms, +-1 h} (event timestamps come from the clock hook, so ties and skew are exact), per-device offline edit lists of length 0..6 (secret create/update/delete on shared slots, folder rename to names from a 2-word pool / description / flags / create / delete, account rename, device trust/revoke, synthetic file events: byte-identical events on several devices are frequent), a generated initial sync order and then round-robin passes until a full pass changes no status (fixpoint) or 6 passes. The real sos_remote_sync AutoMerge::execute_sync runs on every device. Oracle: (a) every sync that returns Ok leaves that device's sync_status equal to the server's at that instant, log by log (root and length); (b) a fixpoint is reached within 6 passes and at the fixpoint all devices and the server have equal statuses and all devices serve equal decrypted folders, unless a device's sync keeps reporting an explicit conflict (classified, not a violation). Non-trivial = at least two devices edited the same log offline (the request trace shows a scan). Distinct = distinct case.",
+    rule: "proptest-generated cases: a pre-history (0..4 edits) on device 0 synced to an in-process server storage through the wire-encoding direct client, 2..3 devices cloned from it with per-device virtual clock skew in {0, +-1 ms, +-1 h} (event timestamps come from the clock hook, so ties and skew are exact), per-device offline edit lists of length 0..6 (secret create/update/delete on shared slots, folder rename to names from a 2-word pool / description / flags / create / delete, account rename, device trust/revoke, synthetic file events: byte-identical events on several devices are frequent), a generated initial sync order and then round-robin passes until a full pass changes no status (fixpoint) or 6 passes. The real sos_remote_sync AutoMerge::execute_sync runs on every device. Oracle: (a) every sync that returns Ok leaves that device's sync_status equal to the server's at that instant, log by log (root and length); (b) a fixpoint is reached within 6 passes and at the fixpoint all devices and the server have equal statuses and all devices serve equal decrypted folders, unless a device's sync keeps reporting an explicit conflict (classified, not a violation). Sub-check convergence-rewrites: the same cases with moves of a secret between folders, compact_folder and change_folder_password in the edit mix (pre-history and offline edits); every device snapshot also reads every secret through the account API (the key held by the folder's access point), not only by decrypting the vault with the folder password from the identity folder. Non-trivial = at least two devices edited the same log offline (the request trace shows a scan). Distinct = distinct case.",
     assumptions: &[
         "interleaving is sequential here (one sync call at a time); concurrent syncs are C09",
         "history rewrites (compaction, password change) are excluded from the offline edits, as in the statement of C05; C12 covers them",
